@@ -1,7 +1,7 @@
 SPECIFICATION GenSpec
 CONSTANTS
-  MaxSegs = 4
-  Kinds <- KindsBoth
+  MaxSegs = 3
+  Kinds <- KindsLog
   Times <- TimesBindable
   Weights <- W1
   DistinctHi = FALSE
@@ -10,11 +10,11 @@ CONSTANTS
   Limits <- Limit0
   OpenWs <- Open0
   WithPq = FALSE
-  MaxCrash = 1
-  MaxRepeat = 0
+  MaxCrash = 0
+  MaxRepeat = 1
   DetOrder = TRUE
-  Mults <- M1_12
-  Orgs <- Org0
+  Mults <- M1
+  Orgs <- Org07
   RewriteScratch = FALSE
   SortedDel = "scan"
   MetKeyWraps = TRUE
